@@ -381,6 +381,15 @@ def _check_bytes(misc, SPSDKError, data: bytes, o: Oracle) -> None:
         o.check("involution", r == want and bytes(misc.change_endianness(r)) == data, "change_endianness", data.hex())
     else:
         o.raises("involution", "change_endianness_invalid", lambda: misc.change_endianness(data), (SPSDKError,))
+    # the same helpers on a caller's bytearray: same answer, and the buffer still holds what it held (each returns a new array)
+    for fname, ok in (("swap_bytes", n % 2 == 0), ("reverse_bytes_in_longs", n % 4 == 0), ("change_endianness", n in (1, 2) or n % 4 == 0)):
+        if ok and n:
+            fn = getattr(misc, fname)
+            buf = bytearray(data)
+            r1 = bytes(fn(buf))
+            o.check("involution", bytes(buf) == data, fname + ":argument_changed", "%s -> %s" % (data.hex(), bytes(buf).hex()))
+            o.check("involution", r1 == bytes(fn(data)), fname + ":bytearray_result", data.hex())
+            o.check("involution", bytes(fn(fn(buf))) == data, fname + ":twice_on_buffer", data.hex())
     if n == 4:
         v = int.from_bytes(data, "big")
         sw = misc.swap32(v)
